@@ -23,6 +23,8 @@ Lemma hc_emit : forall e, heap_const (emit e).
 Proof. intros e st st' o H. now inversion H. Qed.
 Lemma hc_getattrM : forall r n, heap_const (getattrM r n).
 Proof. intros r n st st' o H. unfold getattrM in H. destruct (getattr (s_heap st) r n); now inversion H. Qed.
+Lemma hc_checked_getattrM : forall r n, heap_const (checked_getattrM r n).
+Proof. intros r n st st' o H. unfold checked_getattrM in H. destruct (getattr (s_heap st) r n); now inversion H. Qed.
 Lemma hc_get_heap : heap_const get_heap.
 Proof. intros st st' o H. now inversion H. Qed.
 
@@ -133,7 +135,7 @@ Section Generic.
   Lemma hc_check_loop : forall vis fs r, heap_const (check_loop check vis fs r).
   Proof.
     induction fs as [|f fs IH]; intro r; simpl; [apply hc_ret|].
-    apply hc_bind; [apply hc_getattrM|intro v]. apply hc_bind; [apply hc_emit|intros _].
+    apply hc_bind; [apply hc_checked_getattrM|intro v]. apply hc_bind; [apply hc_emit|intros _].
     intros st st' o H. unfold bindM, get_heap in H.
     destruct (check vis (s_heap st) (f_ann f) v); [eapply IH; eassumption|now inversion H].
   Qed.
